@@ -143,54 +143,91 @@ example : ∃ ts', lex (printTokens [⟨.ident, [97], true, false⟩, ⟨.punct,
   C19_idempotent_partial id (fun _ => false) (fun _ _ => rfl) _ (by decide) (by decide) (by decide)
 
 open ChibiVerif.C19Bridge in
-/-- **C19 (second pass, the actual preprocessor).**  Let `ts` be what the first `-E` pass holds when it prints: self-lexing
-    spellings, first token at the beginning of a line, and INERT with respect to the table the second pass starts from —
-    no `#` at the beginning of a line and no spelling that is the name of a macro `init_macros` defines (predefined
-    object-like macros and the built-ins `__FILE__ __LINE__ __COUNTER__ __TIMESTAMP__ __BASE_FILE__`; the list is
-    regenerated from preprocess.c).  Then `tokenize` reads a list `ts'` back from the printed text, chibicc's
-    `preprocess2` — the model of Model/PP.lean, started from the table of `init_macros`, for every display name and every
-    fuel ≥ the number of tokens — returns EXACTLY that list (every field of every token: kind, spelling, `at_bol`,
-    `has_space`, empty hide set, no origin, line), and printing it gives the first pass's text byte for byte.
+/-- **C19 (second pass, the actual preprocessor).**  Let `ts` be what the first `-E` pass holds when it prints — ANY flags,
+    self-lexing spellings — and let it be INERT with respect to the table the second pass starts from: no `#` at the beginning
+    of a line and no spelling that is the name of a macro `init_macros` defines (predefined object-like macros and the
+    built-ins `__FILE__ __LINE__ __COUNTER__ __TIMESTAMP__ __BASE_FILE__`; the list is regenerated from preprocess.c).  The
+    first token counts as at the beginning of a line (`normFirst`: it is, for the `tokenize` of the second pass).  Then
+    * `tokenize` reads a list `ts'` back from the printed text, with the same spellings;
+    * chibicc's `preprocess2` — the model of Model/PP.lean (the one C09/C10 tie to preprocess.c), started from the table of
+      `init_macros`, for every display name and every fuel ≥ the number of tokens — returns EXACTLY that list (every field of
+      every token: kind, spelling, `at_bol`, `has_space`, empty hide set, no origin, line);
+    * printing it gives the first pass's text byte for byte, except that a blank before the very first token is not
+      printed again (the first pass's first token has `has_space` without `at_bol` exactly when the file starts with a macro
+      that expands to nothing: `#define E` / `E x` prints ` x`, then `x`; confirmed on the binary).
 
     The hypothesis is the weakest of its shape: Findings/C19.lean shows, on the models and confirmed on the binary, that a
     `#` at line start (`#define H #` / `H define X 1`) and a surviving initial-table name (`#undef linux` / `linux`,
-    `#define linux linux`, `#define unix() 0` / `unix`) each make the second pass change the text. -/
+    `#define linux linux`, `#define unix() 0` / `unix`) each make the second pass change the token sequence. -/
 theorem C19_idempotent (ts : List Tok) (h : ∀ t ∈ ts, selfLexing t.text = true)
+    (hin : Inert isInitMacro (normFirst ts) = true)
+    (fuel : Nat) (hfuel : ts.length ≤ fuel) (file : String) :
+    ∃ ts', lex (printTokens ts) = .ok ts' ∧ ts'.map (·.text) = ts.map (·.text) ∧
+      secondPassX fuel file ts' = .ok (toPPs ts') ∧
+      printTokens ts' = printTokens (normFirst ts) ∧
+      (printTokens ts = printTokens (normFirst ts) ∨ printTokens ts = 32 :: printTokens (normFirst ts)) := by
+  have ht := relexed_text ts
+  refine ⟨relexed ts, lex_printTokens ts h, ht, ?_, printTokens_relexed ts, printTokens_normFirst ts⟩
+  refine secondPassX_inert fuel file (relexed ts) ?_ ?_
+  · rw [length_eq_of_map_text _ _ ht]; exact hfuel
+  · unfold Inert at hin
+    unfold inertInit
+    rw [all_congr_of_maps (fun x b => !(b && x == [35]) && !isInitMacro x) (fun _ => rfl) _ _
+      (ht.trans (normFirst_text ts).symm) (relexed_atBol ts)]
+    exact hin
+
+open ChibiVerif.C19Bridge in
+/-- non-vacuity: `#define E` / `E a` / `- -1 "linux" __LINE # b`: the first token `a` has `has_space` and no `at_bol`; a string
+    that spells a macro name, an identifier that is a prefix of one and a `#` inside a line are inert.  The first pass prints
+    ` a` newline …, the second pass the same without the first blank. -/
+example : ∃ ts', lex (printTokens [⟨.ident, [97], false, true⟩, ⟨.punct, [45], true, true⟩, ⟨.punct, [45], false, false⟩,
+      ⟨.ppnum, [49], false, false⟩, ⟨.str, [34, 108, 105, 110, 117, 120, 34], false, true⟩,
+      ⟨.ident, [95, 95, 76, 73, 78, 69], false, true⟩, ⟨.punct, [35], false, true⟩, ⟨.ident, [98], false, true⟩]) = .ok ts' ∧
+    ts'.map (·.text) = [[97], [45], [45], [49], [34, 108, 105, 110, 117, 120, 34], [95, 95, 76, 73, 78, 69], [35], [98]] ∧
+    secondPassX 8 "b.c" ts' = .ok (toPPs ts') ∧ printTokens ts' = [97, 10, 45, 32, 45, 49, 32, 34, 108, 105, 110, 117, 120, 34, 32, 95, 95, 76, 73, 78, 69, 32, 35, 32, 98, 10] := by
+  obtain ⟨ts', h1, h2, h3, h4, _⟩ := C19_idempotent [⟨.ident, [97], false, true⟩, ⟨.punct, [45], true, true⟩,
+      ⟨.punct, [45], false, false⟩, ⟨.ppnum, [49], false, false⟩, ⟨.str, [34, 108, 105, 110, 117, 120, 34], false, true⟩,
+      ⟨.ident, [95, 95, 76, 73, 78, 69], false, true⟩, ⟨.punct, [35], false, true⟩, ⟨.ident, [98], false, true⟩]
+    (by decide) (by decide) 8 (by decide) "b.c"
+  exact ⟨ts', h1, h2, h3, h4⟩
+
+open ChibiVerif.C19Bridge in
+/-- **C19 (second pass, byte for byte).**  When moreover the first token is at the beginning of a line (as it is unless the
+    file starts with a macro that expands to nothing), printing the list the second pass returns gives the same text. -/
+theorem C19_idempotent_exact (ts : List Tok) (h : ∀ t ∈ ts, selfLexing t.text = true)
     (hfirst : ∀ t ∈ ts.head?, t.atBol = true) (hin : Inert isInitMacro ts = true)
     (fuel : Nat) (hfuel : ts.length ≤ fuel) (file : String) :
     ∃ ts', lex (printTokens ts) = .ok ts' ∧ secondPassX fuel file ts' = .ok (toPPs ts') ∧
       printTokens ts' = printTokens ts := by
-  refine ⟨relexed ts, lex_printTokens ts h, ?_, ?_⟩
-  · have hr := printFrom_relex ts none none rfl (fun _ => hfirst)
-    have ht := relexed_text ts
-    refine secondPassX_inert fuel file (relexed ts) ?_ ?_
-    · rw [length_eq_of_map_text _ _ ht]; exact hfuel
-    · have hb : (relexed ts).map (·.atBol) = ts.map (·.atBol) := hr.2
-      unfold Inert at hin
-      unfold inertInit
-      rw [all_congr_of_maps (fun x b => !(b && x == [35]) && !isInitMacro x) (fun _ => rfl) _ _ ht hb]
-      exact hin
-  · exact (printFrom_relex ts none none rfl (fun _ => hfirst)).1
+  have hn : normFirst ts = ts := by
+    cases ts with
+    | nil => rfl
+    | cons t r =>
+      have := hfirst t rfl
+      cases t with
+      | mk k a b s => simp only at this; subst this; rfl
+  obtain ⟨ts', hl, _, hp, hpr, _⟩ := C19_idempotent ts h (by rw [hn]; exact hin) fuel hfuel file
+  exact ⟨ts', hl, hp, by rw [hpr, hn]⟩
 
 open ChibiVerif.C19Bridge in
-/-- non-vacuity: `a` newline `- -1 "linux" __LINE` (a string that spells a macro name and an identifier that is a prefix
-    of one are inert) -/
+/-- non-vacuity: `a` newline `- -1 "linux" __LINE` -/
 example : ∃ ts', lex (printTokens [⟨.ident, [97], true, false⟩, ⟨.punct, [45], true, true⟩, ⟨.punct, [45], false, false⟩,
-      ⟨.ppnum, [49], false, false⟩, ⟨.str, [34, 108, 105, 110, 117, 120, 34], false, true⟩, ⟨.ident, [95, 95, 76, 73, 78, 69], false, true⟩]) = .ok ts' ∧
+      ⟨.ppnum, [49], false, false⟩, ⟨.str, [34, 108, 105, 110, 117, 120, 34], false, true⟩,
+      ⟨.ident, [95, 95, 76, 73, 78, 69], false, true⟩]) = .ok ts' ∧
     secondPassX 6 "b.c" ts' = .ok (toPPs ts') ∧ printTokens ts' = [97, 10, 45, 32, 45, 49, 32, 34, 108, 105, 110, 117, 120, 34, 32, 95, 95, 76, 73, 78, 69, 10] :=
-  C19_idempotent _ (by decide) (by decide) (by decide) 6 (by decide) "b.c"
+  C19_idempotent_exact _ (by decide) (by decide) (by decide) 6 (by decide) "b.c"
 
 open ChibiVerif.C19Bridge in
 /-- **C19 (second pass, as text).**  `C19_idempotent_Statement` for the actual second pass (`secondPass fuel file`:
     re-read, `preprocess2` from the table of `init_macros`, back to printer tokens), restricted to the region where it is
-    true: inert token lists (see `C19_idempotent`) whose code points are Unicode scalar values (what `decode_utf8` yields on
+    true: inert token lists (see `C19_idempotent`) whose first token is at the beginning of a line and whose code points are Unicode scalar values (what `decode_utf8` yields on
     well-formed UTF-8; needed only to carry spellings through `String`).  Printing, re-reading, preprocessing again and
     printing again reproduces the text.  Outside the region the statement is false: Findings/C19.lean. -/
 theorem C19_idempotent_text (fuel : Nat) (file : String) (ts : List Tok) (h : ∀ t ∈ ts, selfLexing t.text = true)
     (hfirst : ∀ t ∈ ts.head?, t.atBol = true)
     (hin : Inert isInitMacro ts = true) (hv : validText ts = true) (hfuel : ts.length ≤ fuel) :
     ∃ ts', lex (printTokens ts) = .ok ts' ∧ printTokens (secondPass fuel file ts') = printTokens ts := by
-  obtain ⟨ts', hl, hp, hpr⟩ := C19_idempotent ts h hfirst hin fuel hfuel file
+  obtain ⟨ts', hl, hp, hpr⟩ := C19_idempotent_exact ts h hfirst hin fuel hfuel file
   refine ⟨ts', hl, ?_⟩
   have hrel : ts' = relexed ts := by
     have := lex_printTokens ts h
